@@ -66,9 +66,43 @@ def _is_cfg_lit(e):
             and not any(x in ('debug_assert', 'assert', '$crate::assert') for x in e['m']))
 
 
+def _normalise_negated_selectors(e):
+    """`if !cfg!(..) { A } else { B }` is the diamond `if cfg!(..) { B } else { A }`: rewrite it so (any number of `!`s)."""
+    if isinstance(e, list):
+        return [_normalise_negated_selectors(x) for x in e]
+    if not isinstance(e, dict):
+        return e
+    e = {k: _normalise_negated_selectors(v) for k, v in e.items()}
+    if e.get('e') == 'if' and e.get('else') is not None:
+        c = e['cond']
+        neg = 0
+        while isinstance(c, dict) and c.get('e') == 'un' and c.get('op') == 'Not':
+            c = c['a']
+            neg += 1
+        c = _unwrap_block(c)
+        if neg and _is_cfg_lit(c):
+            e = dict(e)
+            e['cond'] = c
+            if neg % 2:
+                e['then'], e['else'] = e['else'], e['then']
+                # the literal keeps its own value: the arms moved instead
+    return e
+
+
+class _NormHir(dict):
+    pass
+
+
+def _norm_facts_hir(f):
+    if getattr(f, '_s20_norm', None) is None:
+        f._s20_norm = {d: dict(h, body=_normalise_negated_selectors(h['body'])) for d, h in f.hir.items()}
+    return f._s20_norm
+
+
 def s20_unsafe_twins(ctx):
     fd = ctx.facts('default')
     fu = ctx.facts('unsafe')
+    fd_hir, fu_hir = _norm_facts_hir(fd), _norm_facts_hir(fu)
     r = RuleResult('S20', 'unsafe_performance build == default build except inside cfg!-selected diamonds whose arms are '
                           'checked/unchecked twins of the same access (and one affine-equivalent block move)')
     # ---- (1) inventory
@@ -105,7 +139,7 @@ def s20_unsafe_twins(ctx):
     n_unsafe = 0
     n_diamonds = 0
     diamond_fns = set()
-    for d, h in sorted(fu.hir.items()):
+    for d, h in sorted(fu_hir.items()):
         found = []
         _find(h['body'], lambda e: e.get('e') == 'block' and e.get('unsafe') and not e.get('m'), found)
         for blk, cx in found:
@@ -119,7 +153,7 @@ def s20_unsafe_twins(ctx):
                 if sel['cond']['v'] != 'true':
                     r.violate(key + '|selector-false', 'unsafe block lives in the arm taken when the feature is OFF', h['file'], blk.get('l'))
                 # the same selector must be false in the default build (i.e. it is the unsafe_performance one)
-                hd = fd.hir.get(d)
+                hd = fd_hir.get(d)
                 conds = []
                 if hd:
                     _find(hd['body'], lambda e: e.get('e') == 'if' and _is_cfg_lit(e.get('cond')) and e['cond'].get('l') == sel['cond'].get('l'), conds)
@@ -140,7 +174,7 @@ def s20_unsafe_twins(ctx):
     # ---- (3) twins per diamond
     examined = {}
     for d in sorted(diamond_fns):
-        h = fu.hir[d]
+        h = fu_hir[d]
         ifs = []
         _find(h['body'], lambda e: e.get('e') == 'if' and _is_cfg_lit(e.get('cond')), ifs)
         for ife, cx in ifs:
@@ -193,7 +227,7 @@ def s20_unsafe_twins(ctx):
     # ---- twin helpers
     for d in twin_helpers:
         r.inst('twin-helper|' + d)
-        hu, hd = fu.hir.get(d), fd.hir.get(d)
+        hu, hd = fu_hir.get(d), fd_hir.get(d)
         if not hu or not hd:
             r.violate('twin-helper|%s|no-hir' % d, 'cannot compare the two definitions of %s' % d)
             continue
